@@ -2,6 +2,7 @@
 
 pub mod c07;
 pub mod c44;
+pub mod deposits;
 pub mod determinism;
 pub mod fees;
 pub mod locked;
